@@ -129,6 +129,23 @@ struct access
         for (auto& [cnt, it] : c.m_lfu_list) lq.push_back(std::to_string(cnt) + ":" + std::to_string(it->m_keyed_position->first));
         return "end=" + std::to_string(n) + " list=" + join(l) + " lfu=" + join(lq) + " size=" + std::to_string(c.m_used_size);
     }
+#elif defined(HK_utmap) || defined(HK_utset)
+    template<class C> static std::string dump(C& c)
+    {
+        auto ns = [](std::chrono::steady_clock::time_point t) { return std::to_string(t.time_since_epoch().count()); };
+        std::vector<std::string> tq, ms;
+        for (auto& u : c.m_ttl_list) tq.push_back(ns(u.m_expire_time) + ":" + std::to_string(u.m_keyed_elements_position->first));
+        for (auto& [k, e] : c.m_keyed_elements)
+        {
+#if defined(HK_utmap)
+            std::string v = std::to_string(id(e.m_value));
+#else
+            std::string v = "1";
+#endif
+            ms.push_back(std::to_string(k) + ":" + v + ":" + ns(e.m_ttl_position->m_expire_time));
+        }
+        return "ttl=" + join(tq) + " map=" + join(ms);
+    }
 #else
     template<class C> static std::string dump(C&) { return "-"; }
 #endif
